@@ -184,7 +184,7 @@ func run(c *mc.Ctx) {
 	c.Rep.Extra["elements_all"] = len(els)
 
 	decodeSpace(c, els, tor, lam)
-	nel := c.Pick(30, len(els))
+	nel := c.Pick(24, len(els))
 	if nel > len(els) {
 		nel = len(els)
 	}
@@ -209,6 +209,7 @@ func run(c *mc.Ctx) {
 
 	// audit themes (notes/THEMES.md): aliasing, reuse, identity reached many ways, entropy readers, output shapes
 	themes(c, cel, tor, lam)
+	themes2(c, cel, tor, lam)
 }
 
 func decodeSpace(c *mc.Ctx, els []*element, tor [8]ref.Point, lam []*big.Int) {
@@ -254,7 +255,7 @@ func decodeSpace(c *mc.Ctx, els []*element, tor [8]ref.Point, lam []*big.Int) {
 		R.Add(t.Encode())
 	}
 	R.Add(ref.Base.Encode())
-	ng := c.Pick(4000, 60000)
+	ng := c.Pick(3000, 60000)
 	for i := 0; i < ng; i++ {
 		b := mc.Bytes(c.Seed, "ristretto-string", i, 32)
 		switch i % 8 {
@@ -957,7 +958,7 @@ func uniformSpace(c *mc.Ctx) {
 			extra = append(extra, r, ref.FNeg(r))
 		}
 	}
-	Phi := alphed.FieldStrings(c.Seed, c.Pick(24, 110), extra, c.Thorough)
+	Phi := alphed.FieldStrings(c.Seed, c.Pick(16, 110), extra, c.Thorough)
 	c.Rep.Extra["alphabet_Phi_strings"] = len(Phi)
 	type half struct {
 		m     ref.Point
